@@ -123,12 +123,44 @@ FnsP == {<<"power", <<Z(3)>>>>, <<"power", <<R(1, 2)>>>>, <<"exponentiate", <<Z(
 UseFns1 == IF FnSet = "all" THEN Fns1 ELSE IF FnSet = "few" THEN {"exp", "tanh", "reciprocal", "sqrt"} ELSE IF FnSet = "share" THEN {"exp", "tanh", "sin"} ELSE {"reciprocal"}
 UseFnsP == IF FnSet = "all" THEN FnsP ELSE IF FnSet = "few" THEN {<<"power", <<Z(3)>>>>, <<"clip", <<R(1, 3), Z(1)>>>>} ELSE IF FnSet = "share" THEN {<<"power", <<Z(2)>>>>} ELSE {<<"power", <<Z(3)>>>>}
 MkVar == \E k \in {"a", "b"} : Push(Slot("var", 0, 0, k, NoP, "vec", <<X(k, 1), X(k, 2)>>, {k}))
-MkBin == \E i, j \in SI : \E op \in {"add", "sub", "mul"} :
+\* FnSet "share" / "few" keep the original three binary operations (their enumerations are sized for them)
+BinOps == IF FnSet \in {"share", "few"} THEN {"add", "sub", "mul"} ELSE IF FnSet = "rat" THEN {"add", "sub", "mul", "div"} ELSE {"add", "sub", "mul", "div", "powops"}
+MkBin == \E i, j \in SI : \E op \in BinOps :
            /\ slots[i].shape = slots[j].shape
            /\ Push(Slot(op, i, j, "", NoP, slots[i].shape,
                         [n \in 1..N(slots[i]) |-> CASE op = "add" -> Add(slots[i].val[n], slots[j].val[n])
                                                    [] op = "sub" -> Add(slots[i].val[n], Neg(slots[j].val[n]))
-                                                   [] op = "mul" -> Mul(slots[i].val[n], slots[j].val[n])], slots[i].keys \cup slots[j].keys))
+                                                   [] op = "mul" -> Mul(slots[i].val[n], slots[j].val[n])
+                                                   [] op = "div" -> Mul(slots[i].val[n], Pow(slots[j].val[n], Z(-1)))                    \* x / y
+                                                   [] op = "powops" -> F0("exp", Mul(slots[j].val[n], F0("log", slots[i].val[n])))],     \* x ** y = exp(y log x)
+                        slots[i].keys \cup slots[j].keys))
+\* the arithmetic of an operator with numbers and the unary operator methods (python operators of nifty.cl.Operator):
+\*   c / x, x / c, c - x, c + x, x ** n, base ** x, abs(x), x.real, x.conjugate()   (real fields; .imag refuses real input by design;
+\*   .real / .conjugate() are defined for operators whose target is a single domain tuple only)
+OpsRat == {"rdivc", "divc", "rsubc", "raddc", "powop", "real", "conj"}
+OpsAll == OpsRat \cup {"rpow", "absop"}
+OpVal(o, a) == CASE o = "rdivc" -> Mul(Const(R(3, 2)), Pow(a, Z(-1)))
+                 [] o = "divc" -> Mul(Const(R(-1, 4)), a)                       \* x / (-4)
+                 [] o = "rsubc" -> Add(Const(R(1, 2)), Neg(a))
+                 [] o = "raddc" -> Add(Const(R(1, 2)), a)
+                 [] o = "powop" -> Pow(a, Z(3))
+                 [] o = "rpow" -> Fn("exponentiate", a, <<Z(2)>>)
+                 [] o = "absop" -> F0("abs", a)
+                 [] o \in {"real", "conj"} -> a
+OpPar(o) == CASE o = "rdivc" -> <<R(3, 2)>> [] o = "divc" -> <<Z(-4)>> [] o \in {"rsubc", "raddc"} -> <<R(1, 2)>> [] o = "powop" -> <<Z(3)>> [] o = "rpow" -> <<Z(2)>> [] OTHER -> NoP
+MkOps == \E i \in SI, o \in (IF FnSet = "rat" THEN OpsRat ELSE OpsAll) : (o \in {"real", "conj"} => slots[i].shape # "tvec") /\
+           Push(Slot(o, i, 0, "", OpPar(o), slots[i].shape, [n \in 1..N(slots[i]) |-> OpVal(o, slots[i].val[n])], slots[i].keys))
+\* x.ptw_pre(f): the function is applied to the operator's INPUT: every atom x[k,j] of the expression becomes f(x[k,j])
+RECURSIVE Subst(_, _)
+Subst(e, f) == CASE e.t = "c" -> e
+                 [] e.t = "x" -> F0(f, e)
+                 [] e.t = "+" -> Add(Subst(e.a, f), Subst(e.b, f))
+                 [] e.t = "*" -> Mul(Subst(e.a, f), Subst(e.b, f))
+                 [] e.t = "neg" -> Neg(Subst(e.a, f))
+                 [] e.t = "f" -> Fn(e.f, Subst(e.a, f), e.p)
+                 [] e.t = "pow" -> Pow(Subst(e.a, f), e.n)
+MkPtwPre == \E i \in SI, f \in {"exp", "tanh", "reciprocal"} : slots[i].shape # "tvec" /\ slots[i].op # "var" /\
+              Push(Slot("ptwpre", i, 0, f, NoP, slots[i].shape, [n \in 1..N(slots[i]) |-> Subst(slots[i].val[n], f)], slots[i].keys))
 MkPtw == \E i \in SI : \/ \E f \in UseFns1 : Push(Slot("ptw", i, 0, f, NoP, slots[i].shape, [n \in 1..N(slots[i]) |-> F0(f, slots[i].val[n])], slots[i].keys))
                        \/ \E fp \in UseFnsP : Push(Slot("ptw", i, 0, fp[1], fp[2], slots[i].shape,
                                                           [n \in 1..N(slots[i]) |-> IF fp[1] = "power" THEN Pow(slots[i].val[n], fp[2][1]) ELSE Fn(fp[1], slots[i].val[n], fp[2])], slots[i].keys))
@@ -141,7 +173,7 @@ MkVdot == \E i, j \in SI : slots[i].shape = "vec" /\ slots[j].shape = "vec" /\
             Push(Slot("vdot", i, j, "", NoP, "scal", <<Add(Mul(slots[i].val[1], slots[j].val[1]), Mul(slots[i].val[2], slots[j].val[2]))>>, slots[i].keys \cup slots[j].keys))
 \* key insertion / extraction on the output side: x.ducktape_left("s") and its inverse
 MkTag == \E i \in SI : slots[i].shape = "vec" /\ Push(Slot("tag", i, 0, "", NoP, "tvec", slots[i].val, slots[i].keys))
-MkUntag == \E i \in SI : slots[i].shape = "tvec" /\ Push(Slot("untag", i, 0, "", NoP, "vec", slots[i].val, slots[i].keys))
+MkUntag == \E i \in SI, o \in {"untag", "getitem"} : slots[i].shape = "tvec" /\ Push(Slot(o, i, 0, "", NoP, "vec", slots[i].val, slots[i].keys))    \* FieldAdapter / op["s"]
 \* VariableCovarianceGaussianEnergy(residual = slot i, inverse variance = slot j): sum 1/2 r^2 v - 1/2 log v (real residuals)
 MkVcg == \E i, j \in SI : i # j /\ slots[i].shape = "vec" /\ slots[j].shape = "vec" /\
            Push(Slot("vcg", i, j, "", NoP, "scal",
@@ -171,6 +203,7 @@ Init == slots = CASE Preload = "ab" -> <<VarSlot("a"), VarSlot("b")>>
 \* FnSet = "share": only keys, sums, products and three point-wise functions - deep programs whose slots are re-used many times (C05)
 Next == IF FnSet = "share" THEN MkVar \/ MkBin \/ MkPtw
         ELSE MkVar \/ MkBin \/ MkPtw \/ MkScale \/ MkAddC \/ MkLin \/ MkSum \/ MkVdot \/ MkGauss \/ MkTag \/ MkUntag \/ (FnSet # "few" /\ MkVcg)
+             \/ (FnSet # "few" /\ (MkOps \/ MkPtwPre))
 Spec == Init /\ [][Next]_slots
 Last == slots[Len(slots)]
 \* ---- the law: symbolic derivative = dual-number derivative on the rational sub-language --------------------------------------
